@@ -72,11 +72,12 @@ var opFields = map[string]string{
 
 type tr struct {
 	consts   map[string]string // package-level integer constants (name -> literal)
-	vars     map[string]bool // free Z variables (parameters, lens)
+	vars     map[string]bool   // free Z variables (parameters, lens)
 	order    []string
 	params   map[string]bool   // protocol fields read
 	selfFn   map[string]string // method name -> Gallina name (same package)
 	elem     map[string]string // slice index var -> a/b
+	alias    map[string]string // local name of a slice element (x := ops[i]) -> a/b
 	opVars   map[string]bool   // variables denoting an operation record
 	boolVars map[string]bool
 	usesP    bool
@@ -235,6 +236,9 @@ func (t *tr) selector(x *ast.SelectorExpr) string {
 				}
 			}
 		case *ast.Ident:
+			if v, ok := t.alias[b.Name]; ok {
+				return "(" + f + " " + v + ")"
+			}
 			t.opVars[b.Name] = true
 			return "(" + f + " " + b.Name + ")"
 		}
@@ -296,8 +300,60 @@ func (t *tr) body(stmts []ast.Stmt, errType bool) string {
 	case *ast.ExprStmt, *ast.EmptyStmt:
 		// logging calls are skipped
 		return t.body(stmts[1:], errType)
+	case *ast.AssignStmt:
+		// local definitions  x := e  /  x, y := e1, e2  (each name defined once, never re-assigned)
+		if s.Tok != token.DEFINE || len(s.Lhs) != len(s.Rhs) {
+			return t.fail("assignment other than a local definition")
+		}
+		return t.define(s.Lhs, s.Rhs, stmts[1:], errType)
+	case *ast.DeclStmt:
+		if gd, ok := s.Decl.(*ast.GenDecl); ok && gd.Tok == token.VAR && len(gd.Specs) == 1 {
+			if vs, ok := gd.Specs[0].(*ast.ValueSpec); ok && len(vs.Names) == len(vs.Values) {
+				var lhs []ast.Expr
+				for _, n := range vs.Names {
+					lhs = append(lhs, n)
+				}
+				return t.define(lhs, vs.Values, stmts[1:], errType)
+			}
+		}
+		return t.fail("declaration")
 	}
 	return t.fail("statement %T", stmts[0])
+}
+
+// define translates local definitions followed by the rest of the body: an alias of a slice element becomes the
+// element itself, an integer / boolean definition becomes a let.
+func (t *tr) define(lhs, rhs []ast.Expr, rest []ast.Stmt, errType bool) string {
+	var lets []string
+	for i := range lhs {
+		id, ok := lhs[i].(*ast.Ident)
+		if !ok {
+			return t.fail("definition of a non-identifier")
+		}
+		if t.vars[id.Name] || t.alias[id.Name] != "" {
+			return t.fail("redefinition of %s", id.Name)
+		}
+		if ix, ok := rhs[i].(*ast.IndexExpr); ok {
+			if k, ok := ix.Index.(*ast.Ident); ok {
+				if v, ok := t.elem[k.Name]; ok {
+					t.alias[id.Name] = v
+					continue
+				}
+			}
+			return t.fail("index expression")
+		}
+		lets = append(lets, "let "+id.Name+" := "+t.expr(rhs[i])+" in ")
+	}
+	// names become visible only after all right-hand sides (Go evaluates them first)
+	for i := range lhs {
+		if id := lhs[i].(*ast.Ident); t.alias[id.Name] == "" {
+			t.vars[id.Name] = true
+		}
+	}
+	if len(lets) == 0 {
+		return t.body(rest, errType)
+	}
+	return "(" + strings.Join(lets, "") + t.body(rest, errType) + ")"
 }
 
 // intConsts collects the package-level constants whose value is an integer literal.
@@ -411,7 +467,7 @@ func main() {
 			failures = append(failures, fmt.Sprintf("%s: function %s not found in %s", k.Name, k.Func, k.Dir))
 			continue
 		}
-		t := &tr{consts: intConsts(files), vars: map[string]bool{}, params: map[string]bool{}, elem: map[string]string{}, opVars: map[string]bool{}, boolVars: map[string]bool{},
+		t := &tr{consts: intConsts(files), vars: map[string]bool{}, params: map[string]bool{}, elem: map[string]string{}, alias: map[string]string{}, opVars: map[string]bool{}, boolVars: map[string]bool{},
 			selfFn: map[string]string{}}
 		for _, o := range kernels {
 			if o.Dir == k.Dir && o.Kind == "func" && o.Name != k.Name {
@@ -476,10 +532,10 @@ func main() {
 			body := t.body(lit.Body.List, false)
 			def = fmt.Sprintf("Definition gen_%s (a b : aop) : bool :=\n  %s.\n", k.Name, body)
 		case "guard":
-			var conds []ast.Expr
+			var conds []*ast.IfStmt
 			ast.Inspect(fd.Body, func(nd ast.Node) bool {
-				if is, ok := nd.(*ast.IfStmt); ok && mentions(is.Cond, k.Mention) {
-					conds = append(conds, is.Cond)
+				if is, ok := nd.(*ast.IfStmt); ok && (mentions(is.Cond, k.Mention) || (is.Init != nil && mentions(is.Init, k.Mention))) {
+					conds = append(conds, is)
 				}
 				return true
 			})
@@ -487,8 +543,20 @@ func main() {
 				failures = append(failures, fmt.Sprintf("%s: no guard mentioning %s in %s", k.Name, k.Mention, k.Func))
 				continue
 			}
-			body := t.expr(conds[k.Nth])
+			var body string
+			if init := conds[k.Nth].Init; init != nil {
+				// if x := e; cond  -  the definition is a let around the condition
+				as, ok := init.(*ast.AssignStmt)
+				if !ok || as.Tok != token.DEFINE || len(as.Lhs) != len(as.Rhs) {
+					t.fail("if with an init statement other than a definition")
+				} else {
+					body = t.define(as.Lhs, as.Rhs, []ast.Stmt{&ast.ReturnStmt{Results: []ast.Expr{conds[k.Nth].Cond}}}, false)
+				}
+			} else {
+				body = t.expr(conds[k.Nth].Cond)
+			}
 			var ps []string
+			sort.Strings(t.order) // parameter order must not depend on the order of first use in the expression
 			for _, v := range t.order {
 				if t.boolVars[v] {
 					ps = append(ps, "("+v+" : bool)")
@@ -514,6 +582,7 @@ func main() {
 			}
 			body := t.expr(rhs)
 			var ps []string
+			sort.Strings(t.order)
 			for _, v := range t.order {
 				ps = append(ps, "("+v+" : Z)")
 			}
